@@ -20,14 +20,14 @@ PROPS = {
 PROPS["C02"] = dict(
     rule="streams of 1..8 canonical values (C01 generator; plus 19 streams with a bulk of 511..70000 bytes - sizes around 512/1Ki/4Ki/8Ki/64Ki - alone, inside an array and mid-pipeline, always with values behind it) x partitions of their byte stream: whole, all-1-byte, every 2-way split point "
          "(exhaustive for streams <=300 bytes quick / <=3000 thorough, 40 sampled beyond), 6 random k-way partitions; "
-         "delivered by a scripted io.Reader that never crosses a segment boundary; non-trivial = every case (>=1 value); distinct = distinct case line",
-    trusted_base=[KERNEL, TIE, "io.Reader contract: >=1 byte unless at end of stream, (0, io.EOF) only at the end (net.TCPConn, tls.Conn, net.Pipe, bytes.Buffer)"],
-    assumptions=["readers returning (0, nil) or (n>0, io.EOF) are outside the modelled transport contract"],
+         "delivered by a scripted io.Reader that never crosses a segment boundary, once announcing the end in a separate read (0, io.EOF) and once together with the last bytes (n>0, io.EOF; chunkse); bulk sizes 2^k+c for k<=20; non-trivial = every case (>=1 value); distinct = distinct case line",
+    trusted_base=[KERNEL, TIE, "io.Reader contract: >=1 byte unless at end of stream; the end is announced as (0, io.EOF) or together with the last bytes (n>0, io.EOF) (net.TCPConn, tls.Conn, net.Pipe, bytes.Buffer, bufio)"],
+    assumptions=["readers returning (0, nil) are outside the modelled transport contract"],
 )
 PROPS["C06"] = dict(
     rule="hostile streams: hand-picked near-valid frames (whole and byte-by-byte), deep nesting up to the 1 MiB bound (65536, 131072, 262143 levels, in an isolated child), and structure-aware mutations of valid streams "
          "(truncate, splice, flip, duplicate, edit length/count digits to boundary integers 2^31-1, 2^31, 2^63-2, 2^63-1, 10^13, -1, -2^63, 512MiB+-1, "
-         "drop/double CR/LF), random bytes; declared sizes >=10^7 run in an isolated child (GOMEMLIMIT, 5 s); "
+         "drop/double CR/LF), random bytes; bulks whose length is 2^k+c (k<=20, c in -2..2) with the payload present, one byte short, and absent (bulk); in the thorough tier every bulk length up to 1 MiB from a synthetic reader (bulksweep; quick: windows around the powers of two); a per-case deadline in the harness (60 s) turns a hang into a reported failure; declared sizes >=10^7 run in an isolated child (GOMEMLIMIT, 5 s); "
          "non-trivial = every case; distinct = distinct case line",
     trusted_base=[KERNEL, TIE, "Go runtime behaviour of make() for sizes <= 512 MiB + 2", "io.Reader contract as in C02"],
     assumptions=["stack exhaustion by nesting far beyond 1 MiB of input is outside the model", "memory exhaustion below the 512 MiB bulk limit is outside the model"],
@@ -49,14 +49,14 @@ PROPS["C03"] = dict(canon="serve", timeout=1200,
     trusted_base=SERVE_TB, assumptions=SERVE_AS + ["handler results that make the framework dereference nil (nil message without error) end the connection; they are outside C03's domain"])
 PROPS["C04"] = dict(canon="serve", timeout=1200,
     rule="client streams made of RESP values of every type, command names/arguments with CRLF + forged +OK/:1/$-1 frames, null/nested/empty command arrays, "
-         "with and without a command handler x handler results of every message type incl. nil message, nil array, nil element, errors with CRLF, message+error; "
+         "with and without a command handler, with a handler that keeps its reply objects and hands the same *Message out again, partly read (memo) x handler results of every message type incl. nil message, nil array, nil element, errors with CRLF, message+error; "
          "a reader that pauses 6..8 s inside a 20..80 KB reply with further requests pipelined (stallr, unbuffered pipe: any write timeout an implementation may have expires); plus concurrent cases (conc4): 2..6 connections on the example store with 1..16 KiB array replies (LRANGE, MGET, ZRANGE WITHSCORES), each read in 5..20-byte pieces with scheduling "
          "points in between over unbuffered pipes, every connection's bytes compared exactly with the model's replies; "
          "oracle: an independent strict RESP2 reader must split everything written into complete canonical frames; non-trivial = every case",
     trusted_base=SERVE_TB, assumptions=SERVE_AS)
 PROPS["C05"] = dict(canon="serve", timeout=1200,
     rule="for each of the 38 single-call commands: well-formed requests from an independent grammar (all option subsets and orders, binary strings, boundary ints/floats, "
-         "1..k list elements, duplicate keys, repeated options, random letter case of command and option names) with the expected handler call computed by the grammar, wide requests (list arguments of 255..5000 elements), a client that lags 2.6 s before sending EXPIRE/SETEX/SET EX (relative times are relative to the request), plus unknown commands incl. names whose Unicode upper case would spell a command; "
+         "1..k list elements, duplicate keys, repeated options, random letter case of command and option names) with the expected handler call computed by the grammar, wide requests (list arguments of 255..5000 elements), a client that lags 2.6 s before sending EXPIRE/SETEX/SET EX (relative times are relative to the request), plus unknown commands incl. names whose Unicode upper case would spell a command; witnesses of a request that panics inside the framework while other connections are served (panicw); "
          "non-trivial = every case; distinct = distinct case line",
     trusted_base=SERVE_TB, assumptions=SERVE_AS)
 PROPS["C07"] = dict(canon="serve", timeout=1200,
@@ -68,13 +68,13 @@ PROPS["C07"] = dict(canon="serve", timeout=1200,
     trusted_base=SERVE_TB, assumptions=SERVE_AS + ["process-level effects (OS limits, fatal runtime errors that are not panics) are outside the model"])
 PROPS["C10"] = dict(canon="serve", timeout=1200,
     rule="systematic enumeration over the independent grammar: each required position omitted, each value position replaced by a null bulk, each numeric position replaced by "
-         "non-numeric/overflowing/fractional/hex/underscore tokens, each pair list cut to a dangling half, every SET exclusivity conflict and non-positive expiry; option-bearing commands "
+         "non-numeric/overflowing/fractional/hex/underscore tokens, each pair list cut to a dangling half, every SET exclusivity conflict and non-positive expiry, expiry values whose conversion to time.Duration wraps to zero, negative or small positive; option-bearing commands "
          "(EXPIRE, SCAN, SET, LPOP, ZADD, ZRANGE*, ZREVRANGE*) are drawn 8x per round so that every optional clause (LIMIT o c, COUNT n, MATCH p, EX n ...) occurs and its values are mutated too, "
          "LIMIT cut after its offset; each followed by PING; "
          "oracle: zero handler calls, an error reply, then +PONG; non-trivial = every case",
     trusted_base=SERVE_TB, assumptions=SERVE_AS)
 PROPS["C11"] = dict(canon="serve", timeout=1200,
-    rule="every byte offset of generated pipelines of 1..4 valid requests as the end of the stream (whole or randomly segmented); plus real-socket cases (plain and TLS): a request cut off by close, reset, between CR and LF, inside a bulk payload, with unread replies, a stalled request then reset - resources at baseline; "
+    rule="every byte offset of generated pipelines of 1..4 valid requests as the end of the stream (whole or randomly segmented); requests with a last argument of 4 KiB..200 KB containing CR LF pairs and look-alike frames, cut behind every embedded CR LF (+0/+1/+2), around the declared end and at random offsets; plus real-socket cases (plain and TLS): a request cut off by close, reset, between CR and LF, inside a bulk payload, with unread replies, a stalled request then reset - resources at baseline; "
          "oracle: replies = requests received completely, registry empty after return; non-trivial = every case",
     trusted_base=SERVE_TB, assumptions=SERVE_AS)
 PROPS["C20"] = dict(canon="serve", timeout=1200,
@@ -89,11 +89,11 @@ SYS_TB = [KERNEL, TIE, HOOK + ", one goroutine per connection, requests released
 PROPS["C08"] = dict(canon="sys", timeout=1200,
     rule="per password (5 passwords incl. spaces and CRLF): every candidate of the dictionary (empty, each strict prefix, extensions incl. NUL/CRLF, case variants, wrong/same user names, "
          "missing/null arguments) in the one- and two-argument form and in other letter cases, followed by probes; exact forms; wrong-after-right and right-after-wrong; "
-         "all interleavings of 2 connections x 6 programs (3 connections in thorough); random histories over 1..3 connections mixing AUTH candidates with every command; every third case also on connections served as TLS connections are (tlsState present); "
+         "all interleavings of 2 connections x 6 programs (3 connections in thorough); random histories over 1..3 connections mixing AUTH candidates with every command; every third case also on connections served as TLS connections are (tlsState present), and with an application AUTH handler that reports refusals as error messages (authmsg); on real sockets: password rotation (requirepass changed, Restart, old and new password probed on old and new connections); "
          "oracle: no handler call and no non-error reply on a connection before its own exact AUTH; exact AUTH answered +OK; non-trivial = every case",
     trusted_base=SYS_TB, assumptions=["no TLS certificate rule configured (that is C09)", "requests are atomic with respect to connection-scoped state (only the connection's own goroutine touches it)"])
 PROPS["C13"] = dict(canon="sys", timeout=1200,
-    rule="all interleavings of two connections x 4x4 programs of SELECT/data commands (incl. failing SELECT and QUIT), random histories over 2..8 connections mixing SELECT, AUTH (right/wrong, one- and two-argument form) "
+    rule="all interleavings of two connections x 4x4 programs of SELECT/data commands (incl. failing SELECT and QUIT), random histories over 2..8 connections mixing SELECT, AUTH (right/wrong, one- and two-argument form, built-in and application AUTH handler) "
          "and data commands, with and without a password; oracle: every handler call sees the database of its own connection's last successful SELECT, its own authorization, its own user data, "
          "and the outcome of a one-argument AUTH depends on its own argument only; "
          "non-trivial = every case",
@@ -101,7 +101,7 @@ PROPS["C13"] = dict(canon="sys", timeout=1200,
 
 PROPS["C17"] = dict(
     rule="complete enumeration: every pattern of length <=4 (quick) / <=5 (thorough) over {a,b,*,?,.,+,(,|,$} against every key of length <=3 / <=4 over the same alphabet "
-         "(one case = one pattern, result = bitmap over all keys); random longer patterns over every regexp metacharacter with keys derived from the pattern; "
+         "(one case = one pattern, result = bitmap over all keys); the same enumeration over the second alphabet {a,*,?,backslash,E,Q,[} (regexp quoting); random longer patterns over every regexp metacharacter with keys derived from the pattern; "
          "keyscan cases: the bundled example store populated with every key of length 1..2 (3) over the alphabet, KEYS p and SCAN 0 MATCH p COUNT 100000 for every pattern of length <=3 (4), "
          "both compared with the glob semantics and with each other; "
          "oracle: glob.Compile never fails and MatchString agrees with the harness' own recursive glob matcher; non-trivial = every case",
@@ -113,7 +113,7 @@ PROPS["C17"] = dict(
 PROPS["C18"] = dict(canon="xserve", model_is_oracle=True, timeout=1200,
     rule="single-client programs against the bundled example server through the hook: per data type (strings, hashes, lists, sets, sorted sets) all programs of length <=2 (quick) / <=3 (thorough) "
          "over a menu of 22..46 commands on a small key/member/value/score pool (collisions, re-adds, renames onto existing and identical keys, renamed containers used further / drained / renamed back, "
-         "empty values, keys touched only by derived commands, pops beyond the end, LIMIT, one- and two-sided exclusive bounds), "
+         "empty values, keys touched only by derived commands, pops beyond the end, LIMIT incl. offsets/counts at the int64 borders, REV, one- and two-sided exclusive bounds, containers of 20 and 33 members of every type with duplicates inside one SADD/ZADD/HMSET and pops larger than 16), "
          "plus random programs of 1..40 commands, one type or all mixed; replies compared with the Lean reference store (unordered replies as sorted arrays); non-trivial = every case",
     trusted_base=[KERNEL, TIE, HOOK, "scores restricted to an exactly representable pool (multiples of 0.5, +-inf as bounds); strconv formatting of those",
                   "sync.Map and Go map semantics of the example store"],
@@ -122,7 +122,7 @@ PROPS["C18"] = dict(canon="xserve", model_is_oracle=True, timeout=1200,
 PROPS["C12"] = dict(canon="serve", prep=True, model_is_oracle=False, timeout=1200,
     rule="programs run through the real framework with a handler double that replays the results of the Lean reference store (computed per program by `modeldriver prep`): "
          "GETRANGE/SUBSTR for lengths 0..6 x start,end in -9..9 and ZREVRANGE for sizes 0..5 x start,stop in -7..7 with and without scores (both enumerated exhaustively, with the reply Redis "
-         "defines computed independently in Go as the oracle), ZREVRANGEBYSCORE over 10x10 bounds (open, closed, infinite) x WITHSCORES x 7 LIMIT forms on a set with a score tie (Redis oracle), "
+         "defines computed independently in Go as the oracle), ZREVRANGEBYSCORE over 10x10 bounds (open, closed, infinite) x WITHSCORES x 14 LIMIT forms (small, negative, and offsets/counts at the int64 borders) on a set with a score tie (Redis oracle), "
          "counters at the 64-bit boundaries and on stored values in Go literal syntax (0x10, 0b11, 1_000 ...), MGET/HMGET with 255..1100 keys, random programs of 1..12 commands over every framework-implemented command, string programs of 1..10 commands checked reply by reply against an "
          "independent sequential specification - once with the double (seqspec) and once with a real stateful Go string store behind the framework (sserve); "
          "non-trivial = every case",
@@ -136,16 +136,16 @@ PROPS["C15"] = dict(timeout=1800,
     rule="every sequence of Start/Stop/Restart of length <=4 (quick; <=3 with TLS) / <=6 (thorough), with after each call: observation (registry, ports bindable?, framework goroutines), a client on every enabled port, "
          "a client that connects and idles across the next call; plus random histories of clients connecting, idling, disconnecting (close, QUIT, RST, unread) between the calls; "
          "forced schedules (hook H2): 3 scenarios x every single and every pair of 8 schedule points (quick) / every subset (thorough) delayed by 25 ms; stop storms (Stop while 4 clients keep "
-         "connecting, 3 s watchdog) 40 / 400 rounds; non-trivial = every case",
+         "connecting, 3 s watchdog) 40 / 400 rounds; faulty TLS clients (every handshake fault of C09) before and across Stop/Restart; non-trivial = every case",
     trusted_base=LIFE_TB, assumptions=["the interleavings of lifecycle calls with exiting accept loops / connection goroutines are forced by delaying goroutines at the verif schedule points (not enumerated by a blocking controller) and covered for every schedule by the Lifecycle transition system"])
 PROPS["C19"] = dict(timeout=1800,
     rule="every ending mode (client close, TCP reset - also underneath TLS -, QUIT, malformed frame, half request then close, cut between CR and LF of a header (3 cut points), cut inside a bulk payload, pipelined requests left unread) and Stop with clients stalled inside a request, at pipeline positions 0..2 on the plain and the TLS port; every TLS handshake fault (plain text, garbage, abort after ClientHello, no / self-signed / "
-         "foreign / expired certificate, rejected name), a stalled handshake ended by the client and by Stop; Stop with several connections in flight; churn of 150 (quick) / 10^4 (thorough) connect-disconnect cycles mixing all "
+         "foreign / expired certificate, rejected name), a stalled handshake ended by the client and by Stop; Stop with several connections in flight; a second Start that fails while connections are open; churn of 150 (quick) / 10^4 (thorough) connect-disconnect cycles mixing all "
          "endings with up to 32 in flight; oracle: registry, goroutines and listening sockets at their baseline after every ending; non-trivial = every case",
     trusted_base=LIFE_TB, assumptions=["descriptor tables and TCP reset semantics are the kernel's; the model claims the control flow reaches the releases, the tie observes the effect"])
 PROPS["C09"] = dict(timeout=1800,
     rule="complete enumeration: configurations {no rule, common-name rule, rule + password, TLS only} x credentials {none, plain text, self-signed, foreign CA, expired, right CA wrong name, name only on an intermediate, "
-         "right CA right name, garbage, abort after ClientHello, stall} x position {first, between two good clients, while a good client is connected, all in a row}; harness TLS clients keep a session cache per credential (a second connection with the same credential resumes the session); oracle: faulty clients are disconnected and no command of "
+         "right CA right name, garbage, abort after ClientHello, stall} x position {first, between two good clients, while a good client is connected, all in a row}; the TLS configuration handed over ready-made and as certificate/key/CA files (tlsfiles) with a host trust store (SSL_CERT_FILE) that contains the foreign CA; harness TLS clients keep a session cache per credential (a second connection with the same credential resumes the session); oracle: faulty clients are disconnected and no command of "
          "theirs is executed (handler call counter), both listeners keep serving; non-trivial = every case",
     trusted_base=LIFE_TB, assumptions=["RequireAndVerifyClientCert verifies exactly chains to the configured CA that are currently valid (crypto/tls trusted)"])
 
@@ -153,7 +153,7 @@ PROPS["C14"] = dict(race="always", shards=4, timeout=600,
     env={"GORACE": "log_path=$VERIF/run/racelog halt_on_error=0 exitcode=0", "VH_RACE_LOG": "$VERIF/run/racelog"},
     rule="concurrent workloads against a real server (loopback TCP) built with -race: 2..32 clients x 30..90 rounds mixing one request of every command family "
          "(strings, counters, keys, hashes, lists, sets, sorted sets, connection, unknown, ill-formed) with CONFIG SET/GET (incl. requirepass), AUTH, SELECT, connection churn, "
-         "registry enumeration (Conns/UUID) and Restart x3 / Stop from the application thread; 8 flag combinations; a report counts when one of its stacks has a framework frame; "
+         "registry enumeration (Conns/UUID) and Restart x3 / Stop from the application thread; TLS-enabled servers with half of the clients on the TLS port (tls); lifecycle calls back to back - Start/Stop x3 on one processor, 40 Restarts in a row, Restart/Restart/Stop/Start under load (flap); 12 flag combinations; a workload that aborts the process is a failure; a report counts when one of its stacks has a framework frame; "
          "observable: the set of unordered access-site pairs reported, compared with the model's prediction computed from the regenerated access table; "
          "non-trivial = every workload; distinct = distinct case line",
     trusted_base=[KERNEL, TIE,
@@ -169,7 +169,7 @@ PROPS["C16"] = dict(post="linhist", timeout=1800,
     rule="concurrent histories recorded against the real connection loops (hook H1, one goroutine per connection over net.Pipe): 2..8 clients, 6..14 operations in total "
          "over 1..3 keys, drawn from GET/SET/SETNX/GETSET/INCR/DECRBY/APPEND/MSETNX/DEL in 12 kind mixes (counter-only, SETNX races, MSETNX vs DEL, mixed), "
          "half against the bundled example store, half against a reference handler whose primitives are atomic with scheduling points (Gosched / 20-220us sleeps, seeded) "
-         "before and after every primitive so that composed commands interleave unless something serialises them; invocation/response order from one atomic clock; "
+         "before and after every primitive so that composed commands interleave unless something serialises them; in a third of the histories some clients connect late, while others are already executing; invocation/response order from one atomic clock; "
          "each history is decided by the Lean checker (proved sound and complete) against the sequential specification = the framework model on the reference store, "
          "and independently by a Go search with its own specification; non-trivial = every history; distinct = distinct case line (seed)",
     trusted_base=[KERNEL, TIE, HOOK,
